@@ -1,6 +1,11 @@
 //! harness <check> --tier quick|thorough --seed N      -> one JSON object on stdout
 //! harness replay <check> <args..>                      -> re-executes one case on the real code
+mod cpipe;
+mod gram;
 mod json;
+mod lang;
+mod pipeline;
+mod refsem;
 mod strings;
 
 use json::J;
@@ -29,10 +34,19 @@ pub struct Report {
 
 impl Report {
     pub fn emit(&self) {
-        let v: Vec<J> = self
-            .violations
+        // one representative (the first = smallest enumerated) per signature, with a count
+        let mut firsts: Vec<&Violation> = vec![];
+        let mut counts: std::collections::BTreeMap<&str, i64> = Default::default();
+        for v in &self.violations {
+            let c = counts.entry(v.signature.as_str()).or_insert(0);
+            if *c == 0 {
+                firsts.push(v);
+            }
+            *c += 1;
+        }
+        let v: Vec<J> = firsts
             .iter()
-            .take(50)
+            .take(200)
             .map(|v| {
                 J::obj(vec![
                     ("obligation", J::s(&v.obligation)),
@@ -41,6 +55,7 @@ impl Report {
                     ("expected", v.expected.clone()),
                     ("actual", v.actual.clone()),
                     ("signature", J::s(&v.signature)),
+                    ("same_signature_cases", J::Num(counts[v.signature.as_str()])),
                     ("replay_args", J::Arr(v.replay_args.iter().map(J::s).collect())),
                 ])
             })
@@ -68,6 +83,7 @@ fn main() {
     if args[1] == "replay" {
         let rc = match args[2].as_str() {
             "c07_strings" => strings::replay(&args[3..]),
+            "pipeline" => cpipe::replay(&args[3..]),
             other => {
                 eprintln!("unknown check {other}");
                 2
@@ -92,10 +108,10 @@ fn main() {
         }
         i += 1;
     }
-    let _ = seed;
     let thorough = tier == "thorough";
     let rep = match args[1].as_str() {
         "c07_strings" => strings::run(thorough),
+        "pipeline" => cpipe::run(thorough, seed),
         other => {
             eprintln!("unknown check {other}");
             std::process::exit(2);
